@@ -25,6 +25,8 @@ CHECKS = {
          "generated-input search over all exported functions and degenerate placement families with closed-form membership oracles; two open known findings (disk_to_disk, circle functions)"),
  "C11": ("property-based testing (Hypothesis): same cases; certified reference GJK interval (convex pairs), closed forms (line/plane pairs), exhaustive 1-D search (circle); epsilon bands measured and excluded",
          "generated-input search; a violation always carries a closer pair of points; three open known findings (disk_to_disk, line_segment_to_circle, line_to_circle)"),
+ "C12": ("metamorphic property-based testing (Hypothesis): base scene + transform (argument swap, rigid motion, uniform scale); image rebuilt from transformed specs; scalar outputs compared within the summed tolerances, booleans on clear scenes, points only for unique optima",
+         "generated-input search with metamorphic oracles over the queries of C01, C02, C07-C11; two open known findings"),
  "C13": ("property-based testing (Hypothesis): batches of points constructed at guaranteed depth / exact outside distance k*1e-9*L relative to closed-form reference shapes; cross-checks with point_to_<shape> and support functions",
          "generated-input search with constructed ground truth on both sides of the boundary; held on everything explored"),
  "C15": ("property-based testing (Hypothesis): single tetrahedron pairs (random, lattice corner, factory) and body pairs of all factories (stacked, overlapping, disjoint); own barycentric solve, plane residual, convexity, force direction, swap symmetry",
